@@ -40,7 +40,9 @@ VFILES = ["SelfCal/TrlModel.v", "SelfCal/TrlProofs.v", "SelfCal/TrlQI.v", "SelfC
           "SelfCal/TrlTermsProofs.v", "SelfCal/TrlTermsQI.v", "SelfCal/AutoLoop.v",
           "SelfCal/AutoProofs.v", "SelfCal/AutoReplay.v", "SelfCal/GuardModel.v", "SelfCal/GuardProofs.v",
           "SelfCal/DispatchModel.v", "SelfCal/DispatchProofs.v",
-          "SelfCal/AutoKernelModel.v", "SelfCal/AutoKernelProofs.v", "SelfCal/AutoKernelQI.v", "Properties_C02.v"]
+          "SelfCal/AutoKernelModel.v", "SelfCal/AutoKernelProofs.v", "SelfCal/AutoKernelQI.v",
+          "SelfCal/AutoKernelQrQ.v", "SelfCal/AutoKernelProjector.v", "SelfCal/AutoKernelProjQI.v",
+          "SelfCal/AutoKernelDescent.v", "SelfCal/AutoKernelRun.v", "Properties_C02.v"]
 
 RADIUS = 0.1            # stated radius of the guesses (relative to max(|truth|, 0.2))
 TOLS = [1e-4, 1e-6, 1e-8, 1e-10, 1e-12]
@@ -943,7 +945,9 @@ def run(ctx):
         "AutoLoop's theorems hold for an abstract kernel (Section variables solve_x, sumk, step, apply_step, normd, normdx: total "
         "functions, i.e. every kernel call is ASSUMED to return); AutoKernelModel.v instantiates it with one pass of solve_auto as coded "
         "over Q[i], with the Householder QR replaced by the normal equations / the projector y - A z (Q itself needs square roots); "
-        "that the code's Q2 Q2^H equals this projector is NOT proved, it is tied numerically (J^H J, J^H k, sum |k|^2 per pass); "
+        "that the products with the code's Q2 (Q of _vnacommon_qr formed from the Householder model's array, AutoKernelQrQ.v) equal this "
+        "projector form is PROVED for every m >= n under the sqrt / phase law instances of the run (auto_q2_projector_thm, "
+        "auto_project_is_code_q2_thm) and additionally tied numerically per pass; "
         "the V-matrix update of the measurement-error model is not modelled (v factors are inputs of a pass)",
         "GuardModel: the well-formedness premises (vector lengths = allocation sizes, unknown indices below vn_unknown_parameters) "
         "are read off the allocation sites, not proved from a model of the add functions",
